@@ -68,6 +68,7 @@ class WMap(ModelObj):
             return
         fw, f2 = z3.Function(f"{nm}$hasw", W, B), z3.Function(f"{nm}$has2", W, K, Z, B, B)
         fv, fc = z3.Function(f"{nm}$val2", W, K, Z, B, R), z3.Function(f"{nm}$cnt", W, I)
+        st.ghost.setdefault("c06_fns", []).append(("widgets", fw, f2, fc))
         self.hasw, self.has2, self.val2, self.cnt = (lambda w: fw(w)), (lambda w, c, z, f: f2(w, c, z, f)), (lambda w, c, z, f: fv(w, c, z, f)), (lambda w: fc(w))
         self.wf(st)
 
@@ -191,6 +192,7 @@ class RMap(ModelObj):
         fw, fc, fz, ff = z3.Function(f"{nm}$w", R, W), z3.Function(f"{nm}$c", R, K), z3.Function(f"{nm}$z", R, Z), z3.Function(f"{nm}$f", R, B)
         self.has = (lambda r: z3.BoolVal(False)) if empty else (lambda r: fh(r))
         self.val = lambda r: (fw(r), fc(r), fz(r), ff(r))
+        st.ghost.setdefault("c06_fns", []).append(("refs", fh))
 
     def snapshot(self):
         o = RMap.__new__(RMap)
@@ -227,13 +229,15 @@ class DMap(ModelObj):
     """`CanvasCache._deps`: widget -> list of dependants. has(x); the list of x as (dlen(x), delt(x, j)) with the
     membership view dmem(x, y); `size` = number of keys (the measure of invalidate's recursion)."""
 
-    def __init__(self, st, name, empty=False):
+    def __init__(self, st, name, empty=False, members=True):
+        self.members = members
         nm = st.fresh_name(name)
         fh, fl, fe = z3.Function(f"{nm}$has", W, B), z3.Function(f"{nm}$len", W, I), z3.Function(f"{nm}$elt", W, I, W)
         fm, fi = z3.Function(f"{nm}$mem", W, W, B), z3.Function(f"{nm}$idx", W, W, I)
         self.has = (lambda x: z3.BoolVal(False)) if empty else (lambda x: fh(x))
         self.dlen, self.delt, self.dmem, self.didx = (lambda x: fl(x)), (lambda x, j: fe(x, j)), (lambda x, y: fm(x, y)), (lambda x, y: fi(x, y))
         self.size = z3.IntVal(0) if empty else V._z(st.fresh_int(name + "_size"))
+        st.ghost.setdefault("c06_fns", []).append(("deps", fh, fl, fe, self.size))
         self.wf(st)
 
     def wf(self, st):
@@ -241,8 +245,10 @@ class DMap(ModelObj):
         and a key present => size >= 1."""
         x, y, j = z3.Const("qd_x", W), z3.Const("qd_y", W), z3.Int("qd_j")
         st.assume(mk_bool(z3.ForAll([x], self.dlen(x) >= 0)))
-        st.assume(mk_bool(z3.ForAll([x, j], z3.Implies(z3.And(0 <= j, j < self.dlen(x)), self.dmem(x, self.delt(x, j))))))
-        st.assume(mk_bool(z3.ForAll([x, y], z3.Implies(self.dmem(x, y), z3.And(0 <= self.didx(x, y), self.didx(x, y) < self.dlen(x), self.delt(x, self.didx(x, y)) == y)))))
+        if self.members:
+            # membership view (used by store's contract); invalidate's contract speaks about list elements only
+            st.assume(mk_bool(z3.ForAll([x, j], z3.Implies(z3.And(0 <= j, j < self.dlen(x)), self.dmem(x, self.delt(x, j))))))
+            st.assume(mk_bool(z3.ForAll([x, y], z3.Implies(self.dmem(x, y), z3.And(0 <= self.didx(x, y), self.didx(x, y) < self.dlen(x), self.delt(x, self.didx(x, y)) == y)))))
         st.assume(mk_bool(self.size >= 0))
         st.assume(mk_bool(z3.ForAll([x], z3.Implies(self.has(x), self.size >= 1))))
 
@@ -252,7 +258,7 @@ class DMap(ModelObj):
 
     def snapshot(self):
         o = DMap.__new__(DMap)
-        o.has, o.dlen, o.delt, o.dmem, o.didx, o.size = self.has, self.dlen, self.delt, self.dmem, self.didx, self.size
+        o.has, o.dlen, o.delt, o.dmem, o.didx, o.size, o.members = self.has, self.dlen, self.delt, self.dmem, self.didx, self.size, self.members
         return o
 
     def listval(self, x):
@@ -318,8 +324,45 @@ def _fresh_cache(st, hint):
 
 
 CACHE = Custom(_fresh_cache, "CanvasCache")
-CACHE.fields = {"_widgets": Custom(lambda st, h: WMap(st, "widgets'"), "WMap"), "_refs": Custom(lambda st, h: RMap(st, "refs'"), "RMap"),
-                "_deps": Custom(lambda st, h: DMap(st, "deps'"), "DMap"), "fetches": Int, "hits": Int, "cleanups": Int}
+CACHE.fields = {"_widgets": Custom(lambda st, h: WMap(st, "widgets_n"), "WMap"), "_refs": Custom(lambda st, h: RMap(st, "refs_n"), "RMap"),
+                "_deps": Custom(lambda st, h: DMap(st, "deps_n"), "DMap"), "fetches": Int, "hits": Int, "cleanups": Int}
+
+def _fresh_cache_elems(st, hint):
+    o = SObj(_canvas.CanvasCache, dict(_widgets=WMap(st, "widgets"), _refs=RMap(st, "refs"), _deps=DMap(st, "deps", members=False),
+                                       fetches=st.fresh_int("fetches"), hits=st.fresh_int("hits"), cleanups=st.fresh_int("cleanups")))
+    o.stands_for_class = True
+    return o
+
+
+def empty_entries_witness(st):
+    """Witness scenario for vacuity guards whose path condition is full of quantified model facts: no widget has a
+    cached entry and _refs is empty, in every version of the maps created so far on this path; `widget` has the one
+    dependant y0 at entry and no widget has a list afterwards. Used only to show satisfiability (pyvc.engine.State.cover)."""
+    out = []
+    w, c, z, f = _qvars("cw")
+    r, j = z3.Const("qcw_r", R), z3.Int("qcw_j")
+    y0 = z3.Const("cw_y0", W)
+    target = (st.ex.inputs or {}).get("widget")
+    first_deps = True
+    for item in st.ghost.get("c06_fns", []):
+        if item[0] == "widgets":
+            _t, fw, f2, fc = item
+            out.append(z3.ForAll([w, c, z, f], z3.And(z3.Not(fw(w)), z3.Not(f2(w, c, z, f)), fc(w) == 0)))
+        elif item[0] == "refs":
+            out.append(z3.ForAll([r], z3.Not(item[1](r))))
+        elif target is not None:
+            # dependants: at entry only `widget` has a list, [y0] with y0 another widget; every later version has no list
+            _t, fh, fl, fe, size = item
+            out.append(z3.ForAll([w, j], z3.And(fl(w) == 1, fe(w, j) == y0)))
+            out.append(z3.ForAll([w], fh(w) == (w == target.e)) if first_deps else z3.ForAll([w], z3.Not(fh(w))))
+            out.append(size == (1 if first_deps else 0))
+            out.append(y0 != target.e)
+            first_deps = False
+    return out
+
+
+CACHE_E = Custom(_fresh_cache_elems, "CanvasCache(lists as element sequences)")
+CACHE_E.fields = dict(CACHE.fields, _deps=Custom(lambda st, h: DMap(st, "deps_n", members=False), "DMap"))
 
 WIDGET, WCLS, SIZE, CANV, REF = Opaque("CWidget"), Opaque("CClass"), Opaque("CSize"), Opaque("CCanvas"), Opaque("CRef")
 
@@ -605,3 +648,126 @@ def _other_entries_same(new, old, key):
     w, c, z, f = _qvars("oe")
     here = z3.And(w == key[0], c == key[1], z == key[2], f == key[3])
     return mk_bool(z3.ForAll([w, c, z, f], z3.Implies(z3.Not(here), z3.And(new.cached(w, c, z, f) == old.cached(w, c, z, f), z3.Implies(old.cached(w, c, z, f), new.val2(w, c, z, f) == old.val2(w, c, z, f))))))
+
+
+# ============================================================================================= invalidate
+def _dead(wm, dm, x):
+    """x has no cached entry and no dependants list"""
+    return z3.And(z3.Not(wm.hasw(x)), z3.Not(dm.has(x)))
+
+
+def _untouched(wm2, dm2, wm, dm, x, k):
+    c, z, f = k
+    return z3.And(wm2.hasw(x) == wm.hasw(x), wm2.has2(x, c, z, f) == wm.has2(x, c, z, f), wm2.val2(x, c, z, f) == wm.val2(x, c, z, f), dm2.has(x) == dm.has(x))
+
+
+def _lists_same(dm2, dm):
+    x, j = z3.Const("ql_x", W), z3.Int("ql_j")
+    return mk_bool(z3.ForAll([x, j], z3.And(dm2.dlen(x) == dm.dlen(x), dm2.delt(x, j) == dm.delt(x, j))))
+
+
+def _each_untouched_or_dead(wm2, dm2, wm, dm):
+    x, c, z, f = _qvars("ud")
+    return mk_bool(z3.ForAll([x, c, z, f], z3.Or(_untouched(wm2, dm2, wm, dm, x, (c, z, f)), _dead(wm2, dm2, x))))
+
+
+def _closed(wm2, dm2, dm, skip=None):
+    """every dependant of a widget whose dependants list was consumed is dead"""
+    x, j = z3.Const("qk_x", W), z3.Int("qk_j")
+    pre = z3.And(dm.has(x), z3.Not(dm2.has(x)), 0 <= j, j < dm.dlen(x))
+    if skip is not None:
+        pre = z3.And(pre, x != skip)
+    return mk_bool(z3.ForAll([x, j], z3.Implies(pre, _dead(wm2, dm2, dm.delt(x, j)))))
+
+
+def _refs_shrink(rm2, rm):
+    r = z3.Const("qr_r", R)
+    return mk_bool(z3.ForAll([r], z3.And(z3.Implies(rm2.has(r), rm.has(r)), *[p == q for p, q in zip(rm2.val(r), rm.val(r))])))
+
+
+def _inval_loop0(v):
+    """for ref in cls._widgets[widget].values(): only refs of this widget's entries leave _refs"""
+    rm, rm0 = v.cls._refs, v.old.self._refs
+    r = z3.Const("qi_r", R)
+    w0 = v.widget.e
+    yield "refs-only-shrink", _refs_shrink(rm, rm0)
+    yield "refs-of-other-widgets-kept", mk_bool(z3.ForAll([r], z3.Implies(z3.And(rm0.has(r), rm0.val(r)[0] != w0), rm.has(r))))
+    yield "entries-and-deps-not-yet-written", same_model(v.cls._widgets, v.old.self._widgets) and same_model(v.cls._deps, v.old.self._deps)
+
+
+def _inval_loop1(v):
+    """for w in dependants: cls.invalidate(w) — state after i recursive calls, relative to the entry state"""
+    wm, dm, rm = v.cls._widgets, v.cls._deps, v.cls._refs
+    wm0, dm0, rm0 = v.old.self._widgets, v.old.self._deps, v.old.self._refs
+    w0 = v.widget.e
+    yield "widget-dead", mk_bool(_dead(wm, dm, w0))
+    yield "dependants-so-far-dead", forall(0, v.i_, lambda j: mk_bool(_dead(wm, dm, dm0.delt(w0, V._z(j)))))
+    yield "each-widget-untouched-or-dead", _each_untouched_or_dead(wm, dm, wm0, dm0)
+    yield "lists-untouched", _lists_same(dm, dm0)
+    yield "closed-under-consumed-lists", _closed(wm, dm, dm0, skip=w0)
+    yield "deps-shrank", mk_bool(dm.size <= dm0.size - 1)
+    yield "refs-only-shrink", _refs_shrink(rm, rm0)
+    yield "representation-invariant", rep_inv(v.cls)
+    yield "iterating-the-entry-list", both(v.iter_.length == mk_int(dm0.dlen(w0)), forall(0, v.iter_.length, lambda j: mk_bool(v.iter_.get(j).e == dm0.delt(w0, V._z(j)))))
+
+
+@contract(CV + "CanvasCache.invalidate", property="C06", replayable=False)
+class invalidate:
+    """invalidate(widget): afterwards `widget` has no entry and no dependants list; every widget is either untouched or
+    has lost ALL its entries and its list ("dead"); and the dead set is closed under the dependency edges of the entry
+    state: if x's list was consumed, every y in that list is dead. With `widget` dead this gives, by induction along any
+    path of edges (lemma invalidate-reaches-the-transitive-closure below), that every widget in the transitive closure
+    of deps from `widget` has lost every entry. Nothing is added anywhere. Recursion: the number of keys of _deps
+    decreases (the key is deleted before the dependants are visited), so cyclic dependencies terminate."""
+    self_shape = CACHE_E
+    params = dict(widget=WIDGET)
+    modifies = ("_widgets", "_refs", "_deps")
+    raises = ()
+    loops = {
+        0: Loop(invariant=_inval_loop0, modifies=("cls._refs",), shapes={"cls._refs": CACHE_E.fields["_refs"]}),
+        1: Loop(invariant=_inval_loop1, modifies=("cls._widgets", "cls._refs", "cls._deps"),
+                shapes={"cls._widgets": CACHE_E.fields["_widgets"], "cls._refs": CACHE_E.fields["_refs"], "cls._deps": CACHE_E.fields["_deps"]}),
+    }
+
+    cover_witness = staticmethod(empty_entries_witness)
+
+    def requires(s, a):
+        return rep_inv(s)
+
+    def decreases(s, a):
+        return mk_int(s._deps.size)
+
+    def ensures(old, s, a, result):
+        wm, dm, rm, wm2, dm2, rm2 = old._widgets, old._deps, old._refs, s._widgets, s._deps, s._refs
+        w0 = a.widget.e
+        yield "widget-has-no-entry-and-no-list", mk_bool(_dead(wm2, dm2, w0))
+        yield "each-widget-untouched-or-dead", _each_untouched_or_dead(wm2, dm2, wm, dm)
+        yield "lists-untouched", _lists_same(dm2, dm)
+        yield "dead-set-closed-under-consumed-edges", _closed(wm2, dm2, dm)
+        yield "deps-do-not-grow", mk_bool(dm2.size <= dm.size)
+        yield "refs-only-shrink", _refs_shrink(rm2, rm)
+        yield "representation-invariant-kept", rep_inv(s)
+
+
+@lemma("invalidate-reaches-the-transitive-closure", property="C06")
+class closure_lemma:
+    """Induction along a path p0 = widget, p(k+1) in deps[p(k)] (entry state): every p(k) is dead after invalidate.
+    base: p0 dead (clause widget-has-no-entry-and-no-list); step: p(k) dead and p(k+1) a dependant of p(k) in the entry
+    state => p(k) had a list, it is gone, so (clause dead-set-closed-under-consumed-edges) p(k+1) is dead."""
+    params = dict(k=Int)
+
+    def requires(a):
+        return a.k >= 0
+
+    def claim(a):
+        st = cur()
+        wm, dm, wm2, dm2 = WMap(st, "w0"), DMap(st, "d0"), WMap(st, "w1"), DMap(st, "d1")
+        path = z3.Function("path", I, W)
+        k = V._z(a.k)
+        st.assume(mk_bool(_dead(wm2, dm2, path(0))))                                 # postcondition clause 1 at p0
+        st.assume(_closed(wm2, dm2, dm))                                              # postcondition clause 4
+        j = z3.Int("qp_j")
+        # a path of entry-state edges (y in deps[x]: membership; the list model turns a member into an element)
+        st.assume(mk_bool(z3.ForAll([j], z3.Implies(j >= 0, dm.edge(path(j), path(j + 1))))))
+        yield "base", mk_bool(_dead(wm2, dm2, path(0)))
+        yield "step", implies(mk_bool(_dead(wm2, dm2, path(k))), mk_bool(_dead(wm2, dm2, path(k + 1))))
